@@ -153,7 +153,28 @@ NEAR_VALID = {
     'break_outside': 'void main() { break; }',
     'continue_outside': 'void main() { continue; }',
     'local_shadow': 'char i; void main() { { char i; i = 1; } { char i; i = 2; } }',
+    # reported by a round-6 reader of the unmodified tree (the arithmetic ones panic in builds with overflow checks)
+    'vec_decl': 'void (*vec[2])() = {1, 2}\nvoid main() { }',
+    'ptr_minus_big': 'const char arr[]={1}; char x; void main(){ x = (arr >> 8) - 9000000; }',
+    'ptr_plus_max': 'const char arr[]={1}; char *p; void main(){ p = arr + 2147483647 + 1; }',
+    'short_idx_max': 'const short arr[2]={1,2}; short x; void main(){ x = arr[2147483647]; }',
+    'char_idx_max': 'char arr[2]; char *const R = 0x80; short s; void main(){ X = arr[2147483647]; arr[2147483647] = X; s = R[2147483647]; s = arr[2147483647]; }',
+    'ptr_off_min': 'const char v[1]={0}; const char *ptrs[1]={v - -2147483648}; void main(){}',
+    'ptr_off_min2': 'const char v[1]={0}; const char *p1 = v - -2147483648; const char lo = v - -2147483648 & 255; const char *tab[2] = {v + 2147483647, v - -2147483648 >> 8};  void main(){}',
+    'deep_parens': 'void main() { X = ' + '(' * 3000 + '1' + ')' * 3000 + '; }',
 }
+
+# option sets that are near-valid themselves: (name, source, options)
+NEAR_VALID_OPTIONS = [
+    ('D_paren', 'void main() { }', ['-O1', '-D', '(']),
+    ('D_empty', 'void main() { }', ['-O1', '-D', '']),
+    ('D_eq', 'void main() { }', ['-O1', '-D', '=3']),
+    ('D_star', 'void main() { X = 1; }', ['-O1', '-D', 'a*=3']),
+    ('D_digit', 'void main() { X = 1; }', ['-O1', '-D', '1x=3']),
+    ('D_dot', 'char ab; void main() { ab = 1; }', ['-O1', '-D', 'a.=3']),
+    ('D_bracket', 'void main() { X = 1; }', ['-O1', '-D', '[=3']),
+    ('D_ok', 'void main() { X = N; }', ['-O1', '-D', 'N=(3)']),
+]
 
 OPTION_SETS = [['-O0'], ['-O1'], ['-O3', '--insert-code'], ['-O1', '-W', 'all'], ['-O1', '--fsigned_char'], ['-O1', '-D', 'N=1', '-D', 'FOO']]
 
@@ -166,6 +187,27 @@ _LCTX = ['if (%s) X = 1;', 'if (%s) X = 1; else X = 2;', 'while (%s) { i--; }', 
 for _a, _c in enumerate(_LC):
     for _b, _x in enumerate(_LCTX):
         NEAR_VALID['logic_const_%d_%d' % (_a, _b)] = 'const char K = 1; char i, j; void main() { %s }' % (_x % _c)
+
+
+# every expression form in every position of the grammar that takes an expression (the positions are parsed by
+# different rules and different operator tables: initialisers have no comma operator, constant positions their own
+# calculator, ...): each cell must give code or a located error
+_EF = ['i', '5', '-i', '!i', '~i', '++i', 'i++', '--j', 'j--', 'i + j', 'i - 1', 'i * 2', 'i / 2', 'i << 1', 'i >> 1', 'i & j', 'i | j', 'i ^ j',
+       'i < j', 'i <= 5', 'i == j', 'i != 0', 'i && j', 'i || j', 'i ? j : 3', 'i = j', 'i += 2', 'i <<= 1', '(i = 3, j)', '(i, j)', 'i = 3, j',
+       'f2(i, j)', 'f2((i, j), 1)', 'f0()', 't[i]', 't[1]', 't[i + 1]', '*p', 'p[2]', '&i', 'sizeof(i)', 'sizeof(short)', '(i)', '((i + 1))',
+       's + 1', 's >> 8', "'a'", '"ab"', '-(-i)', 'i + (j = 2)', '(i ? j : 3) + 1', 'X', 'Y + 1', 't[X]', 't[Y]', 'K', 'K + i', 'i + 300', '0x10', '010']
+_EC = ['char x = %s; X = x;', 'char x = 1 + (%s); X = x;', 'char x, y = %s; X = y;', 'short w = %s; s = w;', 'i = %s;', 's = %s;', 'X = %s;', 't[%s] = 1;',
+       't[1] = %s;', 'j = t[%s];', 'f1(%s);', 'j = f2(1, %s);', 'if (%s) j = 1;', 'while (%s) { i = 0; j = 0; break; }', 'do { j--; } while (%s && 0);',
+       'for (%s; j; j--) ;', 'for (j = 2; j; %s) { j--; }', 'switch (%s) { case 1: j = 2; break; default: j = 3; }', 'j = (%s) ? 1 : 2;', 'j = i ? (%s) : 2;',
+       '%s;', '(%s);', 'j = -(%s);', 'j = (%s) + (%s);', '*p = %s;', 'p[1] = %s;', 'load(%s);', 'strobe(%s);']
+_ECR = ['return %s;']
+for _a, _c in enumerate(_EF):
+    for _b, _x in enumerate(_EC):
+        NEAR_VALID['expr_ctx_%d_%d' % (_a, _b)] = ('const char K = 2; char i, j; short s; char t[4]; char *p; char f0() { return 1; } void f1(char a) { X = a; } '
+                                                   'char f2(char a, char b) { return a + b; } void main() { %s }' % _x.replace('%s', _c))
+    NEAR_VALID['expr_ctx_%d_ret' % _a] = 'char i, j; short s; char t[4]; char *p; char f0() { return 1; } char f2(char a, char b) { return a + b; } char g() { return %s; } void main() { X = g(); }' % _c
+    NEAR_VALID['expr_ctx_%d_ginit' % _a] = 'const char K = 2; char i, j; short s; char t[4]; char *p; const char g = %s; const char ga[2] = {1, %s}; char f0() { return 1; } char f2(char a, char b) { return a + b; } void main() { X = g; }' % (_c, _c)
+    NEAR_VALID['expr_ctx_%d_size' % _a] = 'const char K = 2; char i, j; short s; char t[4]; char *p; char arr[%s]; char f0() { return 1; } char f2(char a, char b) { return a + b; } void main() { switch (i) { case %s: X = 1; } asm("nop", %s); }' % (_c, _c, _c)
 
 
 def stress_program(rng):
@@ -305,6 +347,8 @@ def run(ctx):
     for name, src in NEAR_VALID.items():
         for oi, opts in enumerate(OPTION_SETS if not quick else OPTION_SETS[:4]):
             cases.append(('nv:%s:%d' % (name, oi), src, opts, name))
+    for name, src, opts in NEAR_VALID_OPTIONS:
+        cases.append(('nvo:%s' % name, src, opts, name))
     for i in range(n_mut):
         s = mutate(rng, rng.choice(seeds))
         if rng.random() < 0.3:
@@ -322,9 +366,11 @@ def run(ctx):
     stats = {}
     viol = []
     sites = {}
-    for profile in (['release'] if quick else ['release', 'debug']):
-        for lo in range(0, len(cases), 20000):
-            chunk = cases[lo:lo + 20000]
+    for profile in ['release', 'debug']:
+        # (quick tier: the build with overflow checks sees the fixed templates only)
+        pcases = cases if (profile == 'release' or not quick) else [c for c in cases if c[0].startswith('nv')]
+        for lo in range(0, len(pcases), 20000):
+            chunk = pcases[lo:lo + 20000]
             jobs = ''.join(compile_job(cid, src, args=opts, want=['funcs']) for (cid, src, opts, cls) in chunk)
             res = run_ccv(jobs, profile=profile, timeout_ms=4000, tag='tot')
             for (cid, src, opts, cls), r in zip(chunk, res):
